@@ -491,6 +491,7 @@ type Contract struct {
 	Line      int
 	Opts      map[string]string
 	IsTrustedFile bool
+	Private []*Expr // locations private to the call (e.g. a detached table): unchanged by callees' havoc (assumption)
 	extraVars map[string]*Val // captured variables of a contracted function literal at a call site
 	implOf  *Contract         // merged implementer contract: the interface contract it refines
 	Aliases map[string]string // extra name -> canonical receiver/parameter/result name
@@ -548,7 +549,7 @@ var clauseKeywords = map[string]bool{
 	"func": true, "interface": true, "functype": true, "spec": true, "axiom": true, "lemma": true,
 	"ghostfield": true, "guarded_by": true, "monitor": true, "tags": true, "requires": true, "ensures": true,
 	"modifies": true, "loop": true, "invariant": true, "decreases": true, "ghost": true, "trusted": true,
-	"inline": true, "pure": true, "ghost_at_return": true, "call": true, "const": true, "nosafety": true, "opt": true, "decoder": true, "encoder": true, "progress": true, "monitor_assume": true, "immutable": true,
+	"inline": true, "pure": true, "ghost_at_return": true, "call": true, "const": true, "nosafety": true, "opt": true, "decoder": true, "encoder": true, "progress": true, "monitor_assume": true, "immutable": true, "private": true,
 }
 
 // logicalLines strips the comment prefix and joins continuation lines.
@@ -814,6 +815,14 @@ func ParseSpecFile(path, pkg string, isGo, trusted bool) (*SpecFile, error) {
 				} else {
 					cur.Modifies = append(cur.Modifies, e)
 				}
+			}
+		case "private":
+			for _, part := range splitTop(rest, ',') {
+				e, err := ParseExpr(part)
+				if err != nil {
+					return nil, fail(i, "%v", err)
+				}
+				cur.Private = append(cur.Private, e)
 			}
 		case "ghost_at_return":
 			parts := strings.SplitN(rest, ":=", 2)
